@@ -123,7 +123,7 @@ class Contract:
                  loops=None, modifies=(), ghosts=None, inline=False, trusted=False,
                  covers=(), native=None, result=None, note='', exact_raises=True,
                  dropped=(), opaque=False, floor=1, name=None, pure_result=False,
-                 assumes=()):
+                 assumes=(), variant='', uses=(), abstract_classes=None, reveal=()):
         self.prop = prop
         self.file = file
         self.qual = qual
@@ -147,30 +147,39 @@ class Contract:
         self.name = name or qual
         self.pure_result = pure_result
         self.assumes = list(assumes)        # extra assumptions (each listed in the evidence)
+        self.uses = list(uses)              # instances of proved lemmas: (lemma name, {var: text})
+        self.abstract_classes = abstract_classes or {}
+        self.reveal = list(reveal)          # opaque spec functions whose definition this proof needs
+        self.variant = variant              # several contracts (input classes) on one function
+        if variant and name is None:
+            self.name = f'{qual}[{variant}]'
 
     @property
     def key(self):
-        return (self.file, self.qual)
+        return (self.file, self.qual, self.variant)
 
 
 class Lemma:
     """forall vars. requires => goal, proved by induction schema given as explicit
     (base, step) obligations or directly.  All texts are Python over spec functions."""
-    def __init__(self, prop, name, vars, goal, requires=(), induct=None, hints=(), note=''):
+    def __init__(self, prop, name, vars, goal, requires=(), ih=(), measure=None, uses=(), note='', cases=(), reveal=()):
         self.prop = prop
         self.name = name
         self.vars = vars                    # name -> Sort
         self.goal = goal
         self.requires = list(requires)
-        self.induct = induct                # dict(var=..., ih=[substitution dicts], base=cond text) or None
-        self.hints = list(hints)
+        self.ih = list(ih)                  # induction hypothesis instances: [{var: text}], each guarded by measure decrease
+        self.measure = measure              # text of an integer measure (clamped at 0) — well-founded induction
+        self.uses = list(uses)              # instances of other lemmas: (name, {var: text})
+        self.reveal = list(reveal)
+        self.cases = list(cases)            # optional case split texts (each case a separate obligation)
         self.note = note
 
 
 class Registry:
     def __init__(self):
-        self.contracts: T.Dict[T.Tuple[str, str], Contract] = {}
-        self.lemmas: T.List[Lemma] = []
+        self.contracts: T.Dict[T.Tuple[str, str, str], Contract] = {}
+        self.lemmas: T.Dict[str, Lemma] = {}
         self.specs: T.Dict[str, 'SpecFn'] = {}
         self.consts: T.Dict[str, T.Any] = {}
 
@@ -179,27 +188,32 @@ class Registry:
         self.contracts[c.key] = c
         return c
 
+    def lookup(self, file, qual):
+        """the contract callers see (the main variant)"""
+        return self.contracts.get((file, qual, ''))
+
     def lemma(self, *a, **k):
         l = Lemma(*a, **k)
-        self.lemmas.append(l)
+        self.lemmas[l.name] = l
         return l
 
-    def spec(self, sorts, ret, uninterpreted=False, consts=None):
+    def spec(self, sorts, ret, uninterpreted=False, opaque=False):
         """decorator: register a pure Python spec function with its SMT signature"""
         def deco(fn):
-            s = SpecFn(fn, sorts, ret, uninterpreted)
+            s = SpecFn(fn, sorts, ret, uninterpreted, opaque)
             self.specs[fn.__name__] = s
             return fn
         return deco
 
 
 class SpecFn:
-    def __init__(self, fn, sorts, ret, uninterpreted=False):
+    def __init__(self, fn, sorts, ret, uninterpreted=False, opaque=False):
         self.fn = fn
         self.name = fn.__name__
         self.sorts = list(sorts)
         self.ret = ret
         self.uninterpreted = uninterpreted
+        self.opaque = opaque                # hidden (an uninterpreted symbol) unless a contract/lemma reveals it
 
 
 # helpers usable in spec functions, natively
